@@ -26,6 +26,12 @@ import Sigc.Basic
   * `adaptors/hide.h`, `bind.h`, `retype.h` (one hop)                        → `adaptArgs`
   * `signal.h`                 the three emitters' call sites                → `castBackTo`, `siteArg`
                                 `signal_with_accumulator::connect` (same `slot_type`) → `Route.connectAccum`
+                                the sixteen `connect` / `connect_first` overloads of `signal_with_accumulator`
+                                and `trackable_signal_with_accumulator` (inherited by `signal<>`,
+                                `signal<>::accumulated<>`, `trackable_signal<>`, `trackable_signal<>::accumulated<>`)
+                                                                              → `entryDecl` (table), `entryAccepts`
+  * `functors/slot.h`          a `slot<U>` *object* used as a functor (`slot::operator()(take_t<A>...) const`)
+                                                                              → `Kind.slotObj`
   * `signal_connect.h`         exact deduction of `R(A...)` from both arguments → `sigConnExact`
 
   The C++ rules used (my formalisation for this finite universe, validated against g++ and clang++
@@ -205,6 +211,11 @@ def MQ.isConst : MQ → Bool
   | .const | .constVolatile => true
   | _ => false
 
+/-- how an argument that is a slot *object* `so` is written: `so`, `std::as_const(so)`, `std::move(so)` -/
+inductive ArgForm where
+  | lvalue | constLvalue | rvalue
+  deriving DecidableEq, Repr, Inhabited
+
 /-- functor kinds of the universe -/
 inductive Kind where
   | freeFn                                   -- `&f`            → `adaptor_functor<pointer_functor<R(P...)>>`
@@ -214,12 +225,15 @@ inductive Kind where
   | lambda
   | lambdaMut
   | memFun (objConst : Bool) (mq : MQ)       -- `sigc::mem_fun(obj, &C::m)`
+  | slotObj (form : ArgForm)                 -- an object of type `sigc::slot<FR(FP...)>` (a slot is itself a functor:
+                                             -- `T_return slot::operator()(type_trait_take_t<T_arg>... a) const`)
   deriving DecidableEq, Repr, Inhabited
 
 /-- does the stored functor go through a sigc wrapper whose `operator()` is declared with
-    `type_trait_take_t<P>...` (pointer_functor, bound_mem_functor)? -/
+    `type_trait_take_t<P>...` (pointer_functor, bound_mem_functor; and `slot<FR(FP...)>::operator()` itself, which
+    forwards `std::forward<take_t<P>>(a)` to `call_`, whose parameter is `take_t<P>` again — `binds (take p) = binds p`)? -/
 def Kind.wrapped : Kind → Bool
-  | .freeFn | .ptrFun | .memFun _ _ => true
+  | .freeFn | .ptrFun | .memFun _ _ | .slotObj _ => true
   | _ => false
 
 /-- can the functor object be formed at all?  `bound_mem_functor(obj_type_with_modifier& obj, …)`:
@@ -395,6 +409,140 @@ def acceptsRoute (r : Route) (sig : Sig) (ad : Adaptor) (fn : Fn) : Bool :=
   | .signalConnect => ad == .none && sigConnExact sig fn && accepts sig .none fn
   | .connectAccum => accepts sig ad fn
 
+/-! ## The connect entry points (signal.h)
+
+  `signal_with_accumulator<R, Acc, A...>` (base of `signal<R(A...)>` and `signal<R(A...)>::accumulated<Acc>`) and
+  `trackable_signal_with_accumulator<R, Acc, A...>` (base of `trackable_signal<R(A...)>` and
+  `trackable_signal<R(A...)>::accumulated<Acc>`) each declare
+
+      connection connect(const slot_type&);        connection connect(slot_type&&);
+      connection connect_first(const slot_type&);  connection connect_first(slot_type&&);
+
+  with `slot_type = slot<R(A...)>`: sixteen entry points into the slot list.  Their bodies only forward to
+  `signal_base::connect[_first](const slot_base& / slot_base&&)`, which stores whatever it is given **unchecked**;
+  the declared parameter type `slot_type` is therefore the whole type check: an argument that is not a `slot_type`
+  has to be converted by one of `slot_type`'s constructors (the template `slot(const T_functor&)`, whose `call_it`
+  instantiation is the typed call), and that holds for an argument that is a slot *object* of another slot type as
+  well (it is a functor like any other; `slot_base` is only its base class). -/
+
+inductive SigClass where
+  | signal        -- `sigc::signal<R(A...)>`            (signal_with_accumulator)
+  | trackable     -- `sigc::trackable_signal<R(A...)>`  (trackable_signal_with_accumulator)
+  deriving DecidableEq, Repr, Inhabited
+
+inductive ConnFn where
+  | connect | connectFirst
+  deriving DecidableEq, Repr, Inhabited
+
+inductive Overload where
+  | constRef      -- `(const slot_type&)`
+  | rvalueRef     -- `(slot_type&&)`
+  deriving DecidableEq, Repr, Inhabited
+
+/-- the overload set a call expression `sig.connect(x)` / `sig.connect_first(x)` names -/
+structure CallFamily where
+  cls : SigClass
+  accumulated : Bool     -- `…::accumulated<Acc>`
+  fn : ConnFn
+  deriving DecidableEq, Repr, Inhabited
+
+/-- one declared member function -/
+structure EntryPoint where
+  fam : CallFamily
+  ov : Overload
+  deriving DecidableEq, Repr, Inhabited
+
+/-- the class type an entry point's parameter refers to -/
+inductive EntryTy where
+  | slotType      -- `slot_type` = `slot<R(A...)>`: the typed slot of this signal
+  | slotBase      -- `slot_base`: the untyped base class of every slot (what `signal_base::connect` takes)
+  deriving DecidableEq, Repr, Inhabited
+
+structure EntryDecl where
+  ty : EntryTy
+  shape : Shape
+  deriving DecidableEq, Repr, Inhabited
+
+/-- **the table**: the declared parameter of each of the sixteen entry points, row by row as in signal.h
+    (signal_with_accumulator: lines 423, 435, 462, 474; trackable_signal_with_accumulator: 728, 738, 765, 777;
+    the `accumulated` variants inherit the same four members with another accumulator argument). -/
+def entryDecl : EntryPoint → EntryDecl
+  | ⟨⟨.signal, false, .connect⟩, .constRef⟩ => ⟨.slotType, .cref⟩
+  | ⟨⟨.signal, false, .connect⟩, .rvalueRef⟩ => ⟨.slotType, .rref⟩
+  | ⟨⟨.signal, false, .connectFirst⟩, .constRef⟩ => ⟨.slotType, .cref⟩
+  | ⟨⟨.signal, false, .connectFirst⟩, .rvalueRef⟩ => ⟨.slotType, .rref⟩
+  | ⟨⟨.signal, true, .connect⟩, .constRef⟩ => ⟨.slotType, .cref⟩
+  | ⟨⟨.signal, true, .connect⟩, .rvalueRef⟩ => ⟨.slotType, .rref⟩
+  | ⟨⟨.signal, true, .connectFirst⟩, .constRef⟩ => ⟨.slotType, .cref⟩
+  | ⟨⟨.signal, true, .connectFirst⟩, .rvalueRef⟩ => ⟨.slotType, .rref⟩
+  | ⟨⟨.trackable, false, .connect⟩, .constRef⟩ => ⟨.slotType, .cref⟩
+  | ⟨⟨.trackable, false, .connect⟩, .rvalueRef⟩ => ⟨.slotType, .rref⟩
+  | ⟨⟨.trackable, false, .connectFirst⟩, .constRef⟩ => ⟨.slotType, .cref⟩
+  | ⟨⟨.trackable, false, .connectFirst⟩, .rvalueRef⟩ => ⟨.slotType, .rref⟩
+  | ⟨⟨.trackable, true, .connect⟩, .constRef⟩ => ⟨.slotType, .cref⟩
+  | ⟨⟨.trackable, true, .connect⟩, .rvalueRef⟩ => ⟨.slotType, .rref⟩
+  | ⟨⟨.trackable, true, .connectFirst⟩, .constRef⟩ => ⟨.slotType, .cref⟩
+  | ⟨⟨.trackable, true, .connectFirst⟩, .rvalueRef⟩ => ⟨.slotType, .rref⟩
+
+/-- all sixteen -/
+def allEntryPoints : List EntryPoint :=
+  [SigClass.signal, SigClass.trackable].flatMap fun c =>
+    [false, true].flatMap fun a =>
+      [ConnFn.connect, ConnFn.connectFirst].flatMap fun f =>
+        [Overload.constRef, Overload.rvalueRef].map fun o => ⟨⟨c, a, f⟩, o⟩
+
+/-- if the argument is a slot *object* (no adaptor around it): its slot signature and how it is written -/
+def argSlotSig (ad : Adaptor) (fn : Fn) : Option (Sig × ArgForm) :=
+  match ad, fn.kind with
+  | .none, .slotObj f => some (⟨fn.params, fn.ret⟩, f)
+  | _, _ => none
+
+/-- the argument "an object of type `slot<U>`, written `so` / `std::as_const(so)` / `std::move(so)`" -/
+def slotArg (u : Sig) (form : ArgForm) : Fn := ⟨.slotObj form, u.params, u.ret⟩
+
+/-- a reference of the given shape to a class `X` binds *directly* an expression `so` / `std::as_const(so)` /
+    `std::move(so)` whose class type is `X` or derived from `X` ([dcl.init.ref]) -/
+def refBindsObj (sh : Shape) (f : ArgForm) : Bool :=
+  match sh with
+  | .val | .cref => true
+  | .lref => f == .lvalue
+  | .rref => f == .rvalue
+
+/-- a reference of the given shape binds the temporary an implicit conversion creates -/
+def refBindsTemp (sh : Shape) : Bool := sh != .lref
+
+/-- Is the call of **one** entry point (the overload selected by hand) with this argument well-formed?
+    * the parameter is a `slot_type`: an argument that already is a `slot_type` object binds directly (or does not:
+      `slot_type&&` and an lvalue); everything else — functors, adaptors, slot objects of **another** slot type — is
+      implicitly converted by `slot_type`'s converting constructor, i.e. judged by `accepts`;
+    * the parameter is a `slot_base` (no row of the table): every slot object binds directly by the derived-to-base
+      conversion, whatever its signature; a functor does not convert (`slot_base` has no such constructor). -/
+def entryAccepts (ep : EntryPoint) (sig : Sig) (ad : Adaptor) (fn : Fn) : Bool :=
+  let d := entryDecl ep
+  match d.ty, argSlotSig ad fn with
+  | .slotType, some (u, form) =>
+    if u == sig then refBindsObj d.shape form else accepts sig ad fn && refBindsTemp d.shape
+  | .slotType, none => accepts sig ad fn && refBindsTemp d.shape
+  | .slotBase, some (_, form) => refBindsObj d.shape form
+  | .slotBase, none => false
+
+/-- the call expression `sig.connect(x)` / `sig.connect_first(x)`: overload resolution over the pair.  A viable
+    overload exists iff one of the two accepts; they are never ambiguous (an lvalue `slot_type` is viable for
+    `const slot_type&` only; an rvalue `slot_type` prefers `slot_type&&`; both conversions of anything else go through
+    the same constructor and the rvalue-reference binding is the better second standard conversion). -/
+def callAccepts (c : CallFamily) (sig : Sig) (ad : Adaptor) (fn : Fn) : Bool :=
+  entryAccepts ⟨c, .constRef⟩ sig ad fn || entryAccepts ⟨c, .rvalueRef⟩ sig ad fn
+
+/-- what the driver is asked about: one entry point, or the call expression -/
+inductive EntrySel where
+  | one (ep : EntryPoint)
+  | call (c : CallFamily)
+  deriving DecidableEq, Repr, Inhabited
+
+def selAccepts : EntrySel → Sig → Adaptor → Fn → Bool
+  | .one ep => entryAccepts ep
+  | .call c => callAccepts c
+
 /-! ## C20: the function type of the erased call pointer -/
 
 /-- types that occur in `call_it`'s function type -/
@@ -533,6 +681,9 @@ def parseKind (s : String) : Option Kind :=
     | "o" => pure (.memFun false q)
     | "c" => pure (.memFun true q)
     | _ => none
+  | ["slotobj", "l"] => some (.slotObj .lvalue)
+  | ["slotobj", "c"] => some (.slotObj .constLvalue)
+  | ["slotobj", "r"] => some (.slotObj .rvalue)
   | _ => none
 
 def parseLoc (s : String) : Option (Option Nat) :=
@@ -553,6 +704,21 @@ def parseAdaptor (s : String) : Option Adaptor :=
 def parseRoute : String → Option Route
   | "slot" => some .slotInit | "connect" => some .connect | "sigconn" => some .signalConnect
   | "accum" => some .connectAccum
+  | _ => none
+
+/-- `ep:<sig|tsig>:<plain|acc>:<connect|first>:<c|r|any>` — one of the sixteen entry points (`c` = the
+    `const slot_type&` overload, `r` = the `slot_type&&` overload, selected by hand), or (`any`) the call expression -/
+def parseEntrySel (s : String) : Option EntrySel :=
+  match s.splitOn ":" with
+  | ["ep", c, a, f, o] => do
+    let c ← (match c with | "sig" => some SigClass.signal | "tsig" => some SigClass.trackable | _ => none)
+    let a ← (match a with | "plain" => some false | "acc" => some true | _ => none)
+    let f ← (match f with | "connect" => some ConnFn.connect | "first" => some ConnFn.connectFirst | _ => none)
+    match o with
+    | "c" => pure (.one ⟨⟨c, a, f⟩, .constRef⟩)
+    | "r" => pure (.one ⟨⟨c, a, f⟩, .rvalueRef⟩)
+    | "any" => pure (.call ⟨c, a, f⟩)
+    | _ => none
   | _ => none
 
 def parseSite : String → Option CallSite
@@ -579,6 +745,10 @@ def reason (r : Route) (sig : Sig) (ad : Adaptor) (fn : Fn) : String :=
       else if !retOk fn.ret sig.ret then "result"
       else "?"
 
+/-- why an entry-point probe is rejected (diagnostic only; the verdict is `selAccepts`) -/
+def reasonEntry (sig : Sig) (ad : Adaptor) (fn : Fn) : String :=
+  if accepts sig ad fn then "refbind" else reason .connect sig ad fn
+
 def showCTy : CTy → String
   | .void => "void" | .repPtr => "rep*" | .par p => showParam p
 
@@ -590,6 +760,8 @@ def boolStr (b : Bool) : String := if b then "true" else "false"
 /-- one driver case per input line → one output line.
 
     * `probe <route> <adaptor> <kind> R=<ret> S=<params|-> FR=<ret> FP=<params|->` → `accept` | `reject <why>`
+      (`<route>` = `slot` | `connect` | `sigconn` | `accum` | `ep:<sig|tsig>:<plain|acc>:<connect|first>:<c|r|any>`;
+      `<kind>` = `slotobj:<l|c|r>`: the argument is an object of type `sigc::slot<FR(FP...)>`)
     * `binds <param> <expr>` / `cast <param> <expr>` → `true` | `false`
     * `conv <base> <base>` → `implicit` | `explicit` | `none`
     * `passed <param>` → expression token; `chain <param> <expr>` → expression token | `none`
@@ -604,6 +776,13 @@ def processLine (line : String) : String :=
       let sig : Sig := ⟨sp, sr⟩
       let fn : Fn := ⟨k, fp, fr⟩
       if acceptsRoute r sig ad fn then "accept" else "reject " ++ reason r sig ad fn
+    | none, some ad, some k, some sr, some sp, some fr, some fp =>
+      match parseEntrySel r with
+      | some sel =>
+        let sig : Sig := ⟨sp, sr⟩
+        let fn : Fn := ⟨k, fp, fr⟩
+        if selAccepts sel sig ad fn then "accept" else "reject " ++ reasonEntry sig ad fn
+      | none => "error parse"
     | _, _, _, _, _, _, _ => "error parse"
   | ["binds", p, e] =>
     match parseParam p, parseExpr e with
